@@ -294,13 +294,27 @@ package templ
 // CSS classes: emit-if-absent-then-record at the emission site, registry monotone. (The positive half for
 // every container form - "every use still gets its rule" - is not under contract: the function recurses
 // over heterogeneous containers.)
+// Positive half, per item form that templ.CSSClasses (cssProcessor.Add) turns into class names: a component class
+// that contributes its name to the class attribute has its rule registered (and so emitted, here or earlier in this
+// context). Forms: the class itself; KV(class, enabled); a slice of such pairs. (Nested containers - CSSClasses,
+// []CSSClass, func() CSSClass - recurse through this same contract.)
+//@ spec regd(v, id) = has(v.ss, cat("class_", id))
+//@ spec formDirect(v, x) = implies(dyntype(x, ComponentCSSClass), regd(v, payload(x, ComponentCSSClass).ID))
+//@ spec formKV(v, x) = implies(dyntype(x, KeyValue[CSSClass, bool]) && payload(x, KeyValue[CSSClass, bool]).Value && dyntype(payload(x, KeyValue[CSSClass, bool]).Key, ComponentCSSClass), regd(v, payload(payload(x, KeyValue[CSSClass, bool]).Key, ComponentCSSClass).ID))
+//@ spec formKVs(v, x) = implies(dyntype(x, []KeyValue[CSSClass, bool]), forall(j, 0, len(payload(x, []KeyValue[CSSClass, bool])), implies(payload(x, []KeyValue[CSSClass, bool])[j].Value && dyntype(payload(x, []KeyValue[CSSClass, bool])[j].Key, ComponentCSSClass), regd(v, payload(payload(x, []KeyValue[CSSClass, bool])[j].Key, ComponentCSSClass).ID))))
+
 //@ func renderCSSItemsToBuilder [C12]
 //@   requires sb != nil && v != nil
 //@   modifies *sb, v.ss
+//@   ensures {C12} forall(i, 0, len(classes), formDirect(v, classes[i]) && formKV(v, classes[i]) && formKVs(v, classes[i]))
+//@   loop 1 invariant {C12} forall(k, 0, iter, formDirect(v, classes[k]) && formKV(v, classes[k]) && formKVs(v, classes[k]))
 //@   ensures monotone(old(v.ss), v.ss)
 //@   ensures isPrefix(old(sb.String()), sb.String())
 //@   loop 1 invariant monotone(old(v.ss), v.ss) && isPrefix(old(sb.String()), sb.String())
 //@   loop 2 invariant monotone(old(v.ss), v.ss) && isPrefix(old(sb.String()), sb.String())
+// whatever was registered when the inner loop started stays registered
+//@   let SS2 = v.ss @ loop2.entry
+//@   loop 2 invariant {C12} monotone(ghost(SS2), v.ss)
 //@   assert before sb.WriteString#1: !has(v.ss, cat("class_", ccc.ID))
 //@   assert after v.addClass#1: has(v.ss, cat("class_", ccc.ID))
 
